@@ -21,6 +21,11 @@ variable (g : G) (ty : Nat) (b : Bool) (n : Nat)
 @[simp] theorem finishJob_ran (j : Nat) : (g.finishJob j b).ran = g.ran := rfl
 @[simp] theorem invoke_jobs (i : Nat) (c : Option Nat) (v : Option Exec) : (g.invoke i c v).jobs = g.jobs := rfl
 @[simp] theorem invoke_ran (i : Nat) (c : Option Nat) (v : Option Exec) : (g.invoke i c v).ran = g.ran ++ [⟨i, c, v⟩] := rfl
+@[simp] theorem invoke_submitCalls (i : Nat) (c : Option Nat) (v : Option Exec) :
+    (g.invoke i c v).submitCalls = g.submitCalls := rfl
+@[simp] theorem doneAcct_submitCalls : (doneAcct ty b g).submitCalls = g.submitCalls := by
+  unfold doneAcct; repeat' split
+  all_goals rfl
 @[simp] theorem doneAcct_jobs : (doneAcct ty b g).jobs = g.jobs := by
   unfold doneAcct; repeat' split
   all_goals rfl
